@@ -204,6 +204,8 @@ func (a *AggregatePlan) prepare(ctx *ExecuteCtx) error {
 
 func (a *AggregatePlan) prepareBatch(ctx *ExecuteCtx) error {
 	for {
+		// Drop the field results cached for the previous chunk
+		ctx.Clear()
 		kvps, err := a.ChildPlan.Batch(ctx)
 		if err != nil {
 			return err
